@@ -248,6 +248,7 @@ type row struct {
 	cancel      string // "", "before", "during-delay", "during-backoff", "shutdown-during-backoff"
 	table       string
 	longBackoff bool
+	noTimeout   bool // WithTimeout(0): no per-export deadline, only cancellation can end a wait
 }
 
 func (rw row) String() string {
@@ -255,7 +256,7 @@ func (rw row) String() string {
 	for _, o := range rw.seq {
 		names = append(names, o.name)
 	}
-	return fmt.Sprintf("%s table=%s retry={enabled=%v maxElapsed=%v} gzip=%v cancel=%q responses=[%s]", rw.kind, rw.table, rw.rc.Enabled, rw.rc.MaxElapsed, rw.gz, rw.cancel, strings.Join(names, " ; "))
+	return fmt.Sprintf("%s table=%s retry={enabled=%v maxElapsed=%v} gzip=%v cancel=%q timeout-disabled=%v responses=[%s]", rw.kind, rw.table, rw.rc.Enabled, rw.rc.MaxElapsed, rw.gz, rw.cancel, rw.noTimeout, strings.Join(names, " ; "))
 }
 
 func runRow(k *vf.Case, rw row) {
@@ -290,7 +291,11 @@ func runRow(k *vf.Case, rw row) {
 	if rw.longBackoff {
 		initial = 5 * time.Second // the wait after a retryable response is the (randomised) backoff: >= 2.5 s
 	}
-	x, err := newExporter(rw.kind, srv.Addr, rw.rc, 10*time.Second, rw.gz, initial)
+	exportTimeout := 10 * time.Second
+	if rw.noTimeout {
+		exportTimeout = 0
+	}
+	x, err := newExporter(rw.kind, srv.Addr, rw.rc, exportTimeout, rw.gz, initial)
 	if err != nil {
 		k.Violate("exporter-constructor-error", rw.kind, err.Error(), nil)
 		return
@@ -400,9 +405,19 @@ func runRow(k *vf.Case, rw row) {
 			if returnedAt.Sub(sr) > time.Second {
 				fail("export-outlives-shutdown", rw.cancel, fmt.Sprintf("Export returned %v after Shutdown had returned", returnedAt.Sub(sr)))
 			}
+			// the two trace exporters do abort: their Stop cancels every in-flight export (otlptracehttp at
+			// once, otlptracegrpc when Stop's context expires), so the 5 s wait must end without a retry
+			if strings.HasPrefix(rw.kind, "otlptrace") {
+				if len(reqs) != 1 {
+					fail("retry-after-shutdown", rw.cancel, fmt.Sprintf("%d requests although the exporter was stopped during a wait of at least 2.5 s", len(reqs)))
+				}
+				if took > 3*time.Second {
+					fail("export-blocked-beyond-shutdown", rw.cancel, took.String())
+				}
+			}
 		}
 		k.C.Count("rows_cancellation", 1)
-		k.C.Sig(fmt.Sprintf("%s|cancel|%s|%d", rw.kind, rw.cancel, len(reqs)))
+		k.C.Sig(fmt.Sprintf("%s|cancel|%s|%d|%v", rw.kind, rw.cancel, len(reqs), rw.noTimeout))
 		return
 	}
 	// ---- cancellation rows
@@ -693,6 +708,10 @@ func tableC() []row {
 		rows = append(rows, row{kind: kind, seq: []outcome{ok}, rc: on, cancel: "during-delay", table: "C"})
 		rows = append(rows, row{kind: kind, seq: []outcome{slow}, rc: on, cancel: "during-backoff", table: "C", longBackoff: true})
 		rows = append(rows, row{kind: kind, seq: []outcome{slow}, rc: on, cancel: "shutdown-during-backoff", table: "C", longBackoff: true})
+		// the same with the per-export timeout switched off: cancellation is then the only way out of a wait
+		rows = append(rows, row{kind: kind, seq: []outcome{ok}, rc: on, cancel: "during-delay", table: "C", noTimeout: true})
+		rows = append(rows, row{kind: kind, seq: []outcome{slow}, rc: on, cancel: "during-backoff", table: "C", longBackoff: true, noTimeout: true})
+		rows = append(rows, row{kind: kind, seq: []outcome{slow}, rc: on, cancel: "shutdown-during-backoff", table: "C", longBackoff: true, noTimeout: true})
 	}
 	return rows
 }
